@@ -6,7 +6,8 @@ ID=$1; shift
 TIER=${TIER:-quick}
 WT=/tmp/wt/mut_$$
 git -C /repo worktree add -q --detach $WT HEAD || exit 2
-trap 'git -C /repo worktree remove --force '$WT EXIT
+# the checks rewrite evidence/<id>.json on every run: put the unchanged tree's evidence back afterwards
+trap 'git -C /repo worktree remove --force '$WT'; git -C /verif checkout -q -- evidence' EXIT
 git -C $WT apply /verif/seeded/$ID/patch.diff || { echo "patch does not apply"; exit 2; }
 for c in "$@"; do
   out=$(cd /verif && PYTHONPATH=$WT bin/check $c --tier $TIER 2>&1); code=$?
